@@ -28,14 +28,14 @@ def run(prop, tier, vseed):
         plan = [
             (rm, [{"alphabet": "full", "depth": 2}]),
             (tm, [{"alphabet": "full", "depth": 1, "seeds": "xmlctor"},
-                  {"alphabet": "mini", "depth": 2, "seeds": "rep6"},
+                  {"alphabet": "mini", "depth": 2, "seeds": "rep3"},
                   {"alphabet": "mini", "depth": 2, "seeds": "preread"}]),
         ]
     elif tier == "quick":
         plan = [
             (rm, [{"alphabet": "full", "depth": 2}, {"alphabet": "mini", "depth": 3}]),
             (tm, [{"alphabet": "full", "depth": 1, "seeds": "xmlctor"},
-                  {"alphabet": "mini", "depth": 2, "seeds": "rep"},
+                  {"alphabet": "mini", "depth": 2, "seeds": "rep6"},
                   {"alphabet": "mini", "depth": 2, "seeds": "preread"}]),
         ]
     else:
